@@ -251,7 +251,8 @@ def gen_cases(tier: str, seed: int) -> List[Dict]:
 
     # strided views (poly.T, poly[::-1], swapaxes): not C-contiguous
     # (+ axes rotated by one in 3-d, reversed axes in 4-d: layouts whose axis permutation is not its own inverse)
-    for shape, view in [((2, 3), "T"), ((3,), "rev"), ((2, 2), "rev"), ((2, 1, 3), "swap"), ((1, 3), "T"), ((2, 3, 2), "cyc"), ((3, 2, 2), "cyc"), ((2, 1, 3, 2), "T"), ((2, 2, 3, 2), "T"), ((2, 3, 2, 2), "cyc")]:
+    for shape, view in [((2, 3), "T"), ((3,), "rev"), ((2, 2), "rev"), ((2, 1, 3), "swap"), ((1, 3), "T"), ((2, 3, 2), "cyc"), ((3, 2, 2), "cyc"), ((2, 1, 3, 2), "T"), ((2, 2, 3, 2), "T"), ((2, 3, 2, 2), "cyc"),
+                        ((2, 3), "T+own"), ((2, 1, 3), "swap+own"), ((2, 3, 2), "cyc+own"), ((3, 2, 2), "cyc+own")]:
         for kind in ("pickle", "copy"):
             sp = P(shape, nterms=2, mode="raw")
             sp["view"] = view
